@@ -156,6 +156,8 @@ func counterValue(rate float64, bit int) (float64, bool) {
 	return 0, false
 }
 
+var fracs = []float64{0.18687664732286, 0.7071067811865476, 0.1, 0.3333333333333333, 0.123456789012345678}
+
 // lines builds one datagram for a batch shape, registering every datapoint; returns the text and the offered points.
 func (w *world) lines(shape int, rng *vh.Rng) (string, []map[string]any, []string) {
 	w.mu.Lock()
@@ -191,12 +193,18 @@ func (w *world) lines(shape int, rng *vh.Rng) (string, []map[string]any, []strin
 			if w.byVal[s] == nil {
 				w.byVal[s] = map[float64]string{}
 			}
-			w.byVal[s][float64(w.nextID)] = id
+			val := float64(w.nextID)
+			if sk[0] == 't' && w.nextID%3 == 0 {
+				// a value that needs all seventeen digits: what is reported is exactly the number the sender wrote
+				val += fracs[(w.nextID/3)%len(fracs)]
+			}
+			vtxt := strconv.FormatFloat(val, 'g', -1, 64)
+			w.byVal[s][val] = id
 			w.inv[id] = 1 / rate
 			if rate == 1 {
-				fmt.Fprintf(&sb, "%s:%d|ms|#%s\n", lk.name, w.nextID, lk.written)
+				fmt.Fprintf(&sb, "%s:%s|ms|#%s\n", lk.name, vtxt, lk.written)
 			} else {
-				fmt.Fprintf(&sb, "%s:%d|ms|@%v|#%s\n", lk.name, w.nextID, rate, lk.written) // h*: a timer aggregated as a histogram
+				fmt.Fprintf(&sb, "%s:%s|ms|@%v|#%s\n", lk.name, vtxt, rate, lk.written) // h*: a timer aggregated as a histogram
 			}
 		case 's':
 			w.byMem[fmt.Sprintf("m%d", w.nextID)] = id
